@@ -70,6 +70,15 @@ type Prop struct {
 	ColdProbes int
 	// StallClass: shorter limits (seconds) for classes whose cases are known to take microseconds.
 	StallClass map[string]int
+	// OwnProcs: the property sets runtime.GOMAXPROCS itself (C13); otherwise every second shard process runs
+	// with a GOMAXPROCS value from ProcsOf (1, 2, 3, 5, 7, 48, 64, 128), because library code may size its
+	// work by runtime.GOMAXPROCS / NumCPU and a deployment may set any value.
+	OwnProcs bool
+}
+
+// ProcsOf is the GOMAXPROCS setting of a shard process (0 = the default of the machine).
+func ProcsOf(shard int) int {
+	return [16]int{0, 1, 0, 2, 0, 3, 0, 48, 0, 5, 0, 128, 0, 7, 0, 64}[((shard%16)+16)%16]
 }
 
 var registry = map[string]*Prop{}
